@@ -945,3 +945,65 @@ def rule_pk_rebuild(ctx):
                       "%s.%s keeps the whole attribute census %s" % (cls.name, h, sorted(census)),
                       "%s.%s: %s" % (cls.name, h, "; ".join(problems)))
     ctx.floor("PK.REBUILD", 4)
+
+
+def rule_pk_ctor(ctx):
+    """PK.CTOR: reconstruction goes through the constructors, so they must store each argument unchanged
+    (no dtype conversion, no normalisation) - otherwise a copy differs from its original"""
+    p = ctx.p
+    for cq in (HI, "las_items.CurveItem"):
+        cls = p.cls(cq)
+        fi = cls.methods.get("__init__")
+        if fi is None:
+            continue
+        params = fi.params()[1:]
+        problems = []
+        for sub in walk_shallow(fi.node):
+            if isinstance(sub, ast.Assign) and len(sub.targets) == 1 and isinstance(sub.targets[0], ast.Attribute) \
+                    and isinstance(sub.targets[0].value, ast.Name) and sub.targets[0].value.id == "self":
+                attr = sub.targets[0].attr
+                v = sub.value
+                if attr in ("unit", "value", "descr", "original_mnemonic"):
+                    want = "mnemonic" if attr == "original_mnemonic" else attr
+                    if not (isinstance(v, ast.Name) and v.id == want):
+                        problems.append("self.%s is stored as `%s`, not the `%s` argument unchanged" % (attr, unparse(v), want))
+                if attr == "data":
+                    ok = (isinstance(v, ast.Name) and v.id == "data") or (
+                        isinstance(v, ast.Call) and ast.unparse(v.func).endswith("asarray") and len(v.args) == 1 and not v.keywords
+                        and isinstance(v.args[0], ast.Name) and v.args[0].id == "data")
+                    if not ok:
+                        problems.append("self.data is stored as `%s`: a dtype conversion in the constructor changes the array of "
+                                        "every pickled/deep-copied curve (e.g. numeric strings or integers become float64)" % unparse(v))
+            if isinstance(sub, ast.Try) and any("data" in ast.unparse(x) for x in sub.body):
+                problems.append("the data argument is converted tentatively inside try/except in the constructor")
+        ctx.check(not problems, "PK.CTOR", cq + ".__init__#verbatim", fi, fi.node,
+                  "%s.__init__ stores its arguments unchanged (data through a plain np.asarray)" % cls.name,
+                  "; ".join(dict.fromkeys(problems)))
+    ctx.floor("PK.CTOR", 2)
+
+
+def rule_pk_independent(ctx):
+    """PK.INDEPENDENT: a __copy__/__deepcopy__ override must copy what it holds (default deepcopy does)"""
+    p = ctx.p
+    n = 0
+    for q, cls in sorted(p.classes.items()):
+        if cls.module.name not in ("las", "las_items"):
+            continue
+        for h in ("__deepcopy__", "__copy__"):
+            fi = cls.methods.get(h)
+            n += 1
+            site = "%s.%s" % (q, h)
+            if fi is None:
+                ctx.ok("PK.INDEPENDENT", site, next(iter(cls.methods.values())) if cls.methods else None, cls.node,
+                       "%s does not override %s: the generic protocol copies every field" % (cls.name, h), nontrivial=(h == "__deepcopy__"))
+                continue
+            if h == "__copy__":
+                continue
+            calls = [ast.unparse(c.func) for c in walk_shallow(fi.node) if isinstance(c, ast.Call)]
+            deep = any(x.endswith("deepcopy") for x in calls)
+            ctx.check(deep, "PK.INDEPENDENT", site, fi, fi.node,
+                      "%s.__deepcopy__ deep-copies its fields" % cls.name,
+                      "%s.__deepcopy__ builds the copy without deep-copying its fields (calls: %s): np.asarray in the constructor "
+                      "does not copy an ndarray, so the copy shares the curve array with the original and editing one changes "
+                      "the other" % (cls.name, sorted(set(calls))))
+    ctx.floor("PK.INDEPENDENT", 4)
